@@ -6,6 +6,7 @@ import (
 	"encoding/json"
 	"fmt"
 	"io"
+	"os"
 	"runtime"
 	"strconv"
 	"strings"
@@ -69,7 +70,41 @@ func (e *tabEncoder) Flush() error { return e.w.Flush() }
 
 type reporter func(id uint64)
 
-// aggr <fmt> <Q> <G> <per> <mode> <delay-ms> <bufsize> <salt>
+// stallFs: a memory file system whose files block in their FIRST Write for the given time
+// (an output that stalls: slow disk, blocked pipe). Everything else is afero's MemMapFs.
+type stallFs struct {
+	afero.Fs
+	stall time.Duration
+}
+
+type stallFile struct {
+	afero.File
+	stall time.Duration
+	once  sync.Once
+}
+
+func (f *stallFile) Write(p []byte) (int, error) {
+	f.once.Do(func() { time.Sleep(f.stall) })
+	return f.File.Write(p)
+}
+
+func (s *stallFs) Create(name string) (afero.File, error) {
+	f, err := s.Fs.Create(name)
+	if err != nil {
+		return nil, err
+	}
+	return &stallFile{File: f, stall: s.stall}, nil
+}
+
+func (s *stallFs) OpenFile(name string, flag int, perm os.FileMode) (afero.File, error) {
+	f, err := s.Fs.OpenFile(name, flag, perm)
+	if err != nil {
+		return nil, err
+	}
+	return &stallFile{File: f, stall: s.stall}, nil
+}
+
+// aggr <fmt> <Q> <G> <per> <mode> <delay-ms> <bufsize> <salt> [<stall-ms>]
 //
 //	fmt   phout | phoutid | json | tab
 //	mode  pre   all reports are made (by one goroutine, round robin over the G reporters) BEFORE Run starts
@@ -77,6 +112,8 @@ type reporter func(id uint64)
 //	            so the global order of the completed Reports is known
 //	      free  Run is running; G goroutines report with no extra synchronisation
 //	delay  ms between the last completed Report and the cancel; -1 (pre only): cancel before Run starts
+//	stall  (optional) the destination's first Write blocks for that long: the queue runs full while
+//	       the output stalls; cases with a stall are run concurrently with the other cases (main.go)
 //
 // observation:  <err> <order> <payload>
 //
@@ -100,7 +137,13 @@ func runAggr(f []string) (obs string) {
 	salt, _ := strconv.ParseUint(f[8], 10, 64)
 	rnd := vh.NewRand(salt)
 
-	fs := afero.NewMemMapFs()
+	var fs afero.Fs = afero.NewMemMapFs()
+	hangAfter := 5 * time.Second
+	if len(f) > 9 {
+		ms, _ := strconv.Atoi(f[9])
+		fs = &stallFs{Fs: fs, stall: time.Duration(ms) * time.Millisecond}
+		hangAfter += time.Duration(ms) * time.Millisecond
+	}
 	var run func(ctx context.Context) error
 	var report reporter
 	deps := core.AggregatorDeps{Log: zap.NewNop()}
@@ -213,7 +256,7 @@ func runAggr(f []string) (obs string) {
 	var err error
 	select {
 	case err = <-runErr:
-	case <-time.After(5 * time.Second):
+	case <-time.After(hangAfter):
 		return "hang - -"
 	}
 	errField := "nil"
@@ -311,10 +354,20 @@ func genAggr(r *vh.Rand, tier string) []string {
 					}
 				}
 			}
-			delay = r.PickInt([]int{-1, -1, 0, 0, 2})
+			delay = r.PickInt([]int{-1, 0, 2, 5, 10})
 		}
 		bufsize := r.PickInt([]int{0, 1, 4096, 4097, 5000, 65536})
 		out = append(out, fmt.Sprintf("aggr %s %d %d %d %s %d %d %d", format, q, g, per, mode, delay, bufsize, r.U64()%1000000))
+	}
+	// a stalling destination: the queue is full for seconds; a blocking Report must keep waiting,
+	// a dropping one must count. (Run concurrently, so the wall time is that of the longest stall.)
+	stalls := []int{4000, 1500}
+	if tier == "thorough" {
+		stalls = []int{500, 1000, 2000, 3000, 4000, 6000, 8000, 12000}
+	}
+	for i, ms := range stalls {
+		format := []string{"phoutid", "json", "phout", "tab"}[i%4]
+		out = append(out, fmt.Sprintf("aggr %s %d %d %d free 0 4096 %d %d", format, r.Range(1, 4), r.Range(2, 4), r.Range(80, 120), r.U64()%1000000, ms))
 	}
 	return out
 }
